@@ -282,8 +282,47 @@ backup_body(void *arg) {
     }
     kh_close(&b);
   }
-  at_backup = h.model;
-  kh_close(&h);
+  /* a backup onto a destination that already holds a database (the earlier backup, the source's own
+     directory) may be refused or may succeed, but it never damages what is already there: the earlier
+     backup still opens with the contents of one of the two moments, the source stays right */
+  if (j->r.ok) {
+    kmodel_t second = h.model;
+    int rc2 = ldb_backup(h.db, "/vfs/bak");
+    int rc3 = ldb_backup(h.db, DB);
+    (void)rc3;
+    if (kh_open(&b) != LDB_OK) {
+      snprintf(m, sizeof(m), "after a second ldb_backup onto the existing backup (status %d) the earlier backup does not open: status %d (%s)", rc2, b.open_status, ldb_strerror(b.open_status));
+      rfail(&j->r, "existing-backup-destroyed", m);
+    } else if (!same_model(&b, rc2 == LDB_OK ? &second : &at_backup, e, sizeof(e))) {
+      snprintf(m, sizeof(m), "after a second ldb_backup onto the existing backup (status %d) its contents are wrong: %s", rc2, e);
+      rfail(&j->r, "existing-backup-destroyed", m);
+    }
+    kh_close(&b);
+    if (j->r.ok && !same_model(&h, &h.model, e, sizeof(e))) {
+      snprintf(m, sizeof(m), "the source database is wrong after backups onto existing destinations: %s", e);
+      rfail(&j->r, "source-damaged-by-backup", m);
+    }
+    at_backup = rc2 == LDB_OK ? second : at_backup;
+  }
+  {
+    kmodel_t bak_model = at_backup;
+    at_backup = h.model;
+    kh_close(&h);
+    /* ldb_copy onto the existing backup and onto itself: same rule */
+    if (j->r.ok) {
+      int rc4 = ldb_copy(DB, "/vfs/bak", &h.o.opt);
+      int rc5 = ldb_copy(DB, DB, &h.o.opt);
+      (void)rc5;
+      if (kh_open(&b) != LDB_OK) {
+        snprintf(m, sizeof(m), "after ldb_copy onto the existing backup (status %d) the earlier backup does not open: status %d (%s)", rc4, b.open_status, ldb_strerror(b.open_status));
+        rfail(&j->r, "existing-backup-destroyed", m);
+      } else if (!same_model(&b, rc4 == LDB_OK ? &at_backup : &bak_model, e, sizeof(e))) {
+        snprintf(m, sizeof(m), "after ldb_copy onto the existing backup (status %d) its contents are wrong: %s", rc4, e);
+        rfail(&j->r, "existing-backup-destroyed", m);
+      }
+      kh_close(&b);
+    }
+  }
   /* ldb_copy of the closed database */
   if (j->r.ok) {
     rc = ldb_copy(DB, "/vfs/cpy", &h.o.opt);
